@@ -32,6 +32,10 @@ func init() {
 			fmt.Println("codec optional fields", ruleGNILCodec(c, r, sc))
 		}
 		fmt.Println("size~enc", ruleSizeEncodeConditions(c, r, map[string]bool{"mp4": true}))
+		fmt.Println("rawfield", ruleReducedNotRaw(c, r, nil))
+		fmt.Println("sizelast", ruleSizeAfterLastRead(c, r, nil))
+		ruleConfRecProfileAlways(c, r)
+		fmt.Println("adds", ruleSampleAlwaysAdded(c, r))
 		fmt.Println("filterbreak", ruleFilterBreak(c, r, nil))
 		fmt.Println("trunccopy", ruleTruncatingCopy(c, r, nil))
 		fmt.Println("bytesparams", ruleByteParamsReadOnly(c, r, byteParamWriters))
@@ -2121,9 +2125,18 @@ func ruleFilterBreak(c *Ctx, r *Report, scope func(*ssa.Function) bool) int {
 						continue
 					}
 					for _, s := range blk.Succs {
-						// an edge out of the loop body from which the replacing store is still reached: a break
+						// an edge out of the loop body from which the replacing store is still reached: a break — unless the
+						// leaving block itself appends to the new list (`kept = append(kept, rest...); break`)
 						if !l.blocks[s] && (s == st.Block() || reach[s][st.Block()]) {
-							brk = blk
+							appendsRest := false
+							for _, ap := range appends {
+								if ap.Block() == blk {
+									appendsRest = true
+								}
+							}
+							if !appendsRest {
+								brk = blk
+							}
 						}
 					}
 				}
@@ -2279,6 +2292,378 @@ func ruleSizeEncodeConditions(c *Ctx, r *Report, pkgs map[string]bool) int {
 			r.Bad("S-COND", key, c.Pos(enc.Pos()), "Size() and EncodeSW test the same field differently: "+strings.Join(diff, " | "))
 		} else {
 			r.OK("S-COND", key, c.Pos(enc.Pos()), fmt.Sprintf("the %d commonly tested fields are tested alike", len(common)))
+		}
+	}
+	return n
+}
+
+// ---- O-SIZELAST: the parsed size is taken after the last read ---------------------------------------------------
+
+// ruleSizeAfterLastRead (O-SIZELAST): where a parser stores the reader's byte count (NrBytesRead) into a field of its
+// result (SliceHeader.Size — the cbcs clear/protected boundary —, SPS.NrBytesRead), no read from the same reader is
+// reachable after that store: a size taken before the alignment bits is one byte short when they fill a byte of their
+// own. Returns the number of such stores.
+func ruleSizeAfterLastRead(c *Ctx, r *Report, scope func(*ssa.Function) bool) int {
+	n := 0
+	for _, f := range libFuncs(c, scope) {
+		reach := blockReach(f)
+		for _, b := range f.Blocks {
+			for _, ins := range b.Instrs {
+				st, ok := ins.(*ssa.Store)
+				if !ok {
+					continue
+				}
+				fa, ok := st.Addr.(*ssa.FieldAddr)
+				if !ok {
+					continue
+				}
+				v := st.Val
+				for {
+					if cv, ok := v.(*ssa.Convert); ok {
+						v = cv.X
+						continue
+					}
+					break
+				}
+				call, ok := v.(*ssa.Call)
+				if !ok {
+					continue
+				}
+				h := call.Call.StaticCallee()
+				if h == nil || h.Name() != "NrBytesRead" || len(call.Call.Args) == 0 {
+					continue
+				}
+				fv := fieldVar(fa.X.Type(), fa.Field)
+				// only the final size of the result (an intermediate mark such as NrBytesBeforeVUI is followed by reads)
+				if fv == nil || (fv.Name() != "Size" && fv.Name() != "NrBytesRead") {
+					continue
+				}
+				reader := call.Call.Args[0]
+				n++
+				key := fmt.Sprintf("%s:%s.%s", SSAFuncName(f), typeName(fa.X.Type()), fv.Name())
+				var late ssa.Instruction
+				for _, b2 := range f.Blocks {
+					for _, i2 := range b2.Instrs {
+						c2, ok := i2.(*ssa.Call)
+						if !ok || i2 == ssa.Instruction(call) {
+							continue
+						}
+						h2 := c2.Call.StaticCallee()
+						if h2 == nil || len(c2.Call.Args) == 0 || c2.Call.Args[0] != reader || !strings.HasPrefix(h2.Name(), "Read") {
+							continue
+						}
+						if insReaches(st, i2, reach) {
+							late = i2
+						}
+					}
+				}
+				if late != nil {
+					r.Bad("O-SIZELAST", key, c.Pos(late.Pos()), "the reader is read again after its byte count was stored as the size of the parsed structure: the stored size misses what is read afterwards")
+				} else {
+					r.OK("O-SIZELAST", key, c.Pos(st.Pos()), "no read from the reader follows the store of its byte count")
+				}
+			}
+		}
+	}
+	return n
+}
+
+// ---- DEP: a created configuration record carries the SPS's profile bytes on every path -------------------------
+
+// ruleConfRecProfileAlways (DEP): in avc.CreateAVCDecConfRec the stores to AVCProfileIndication, ProfileCompatibility
+// and AVCLevelIndication of the record sit in blocks that dominate the successful return: the record carries the
+// profile, compatibility and level of the SPS whether or not the parameter sets are included.
+func ruleConfRecProfileAlways(c *Ctx, r *Report) {
+	f := c.ssaFunc(r, "DEP", "avc", "CreateAVCDecConfRec")
+	if f == nil {
+		return
+	}
+	var okRet *ssa.BasicBlock
+	for _, b := range f.Blocks {
+		if ret, ok := b.Instrs[len(b.Instrs)-1].(*ssa.Return); ok && len(ret.Results) == 2 {
+			if k, isC := ret.Results[1].(*ssa.Const); isC && k.Value == nil {
+				okRet = b
+			}
+		}
+	}
+	key := "avc.CreateAVCDecConfRec:profile-compatibility-level-on-every-path"
+	if okRet == nil {
+		r.Undecided("DEP", key, c.Pos(f.Pos()), "no successful return found")
+		return
+	}
+	want := map[string]bool{"AVCProfileIndication": false, "ProfileCompatibility": false, "AVCLevelIndication": false}
+	for _, b := range f.Blocks {
+		for _, ins := range b.Instrs {
+			st, ok := ins.(*ssa.Store)
+			if !ok {
+				continue
+			}
+			fa, ok := st.Addr.(*ssa.FieldAddr)
+			if !ok || typeName(fa.X.Type()) != "DecConfRec" {
+				continue
+			}
+			fv := fieldVar(fa.X.Type(), fa.Field)
+			if fv == nil {
+				continue
+			}
+			if _, w := want[fv.Name()]; w && b.Dominates(okRet) && sliceHas(backSlice(c, st.Val, 0), "field", "SPS."+map[string]string{"AVCProfileIndication": "Profile", "ProfileCompatibility": "ProfileCompatibility", "AVCLevelIndication": "Level"}[fv.Name()]) {
+				want[fv.Name()] = true
+			}
+		}
+	}
+	var missing []string
+	for k, ok := range want {
+		if !ok {
+			missing = append(missing, k)
+		}
+	}
+	sort.Strings(missing)
+	if len(missing) > 0 {
+		r.Bad("DEP", key, c.Pos(f.Pos()), "not set from the SPS on every path to the successful return: "+strings.Join(missing, ", ")+" (an avc3 record without parameter sets would carry profile 0)")
+	} else {
+		r.OK("DEP", key, c.Pos(f.Pos()), "the three bytes are set from the SPS on every path to the successful return")
+	}
+}
+
+// ---- O-EVERY (adds): a sample handed to a Fragment Add method is added --------------------------------------------
+
+// ruleSampleAlwaysAdded (O-EVERY): a Fragment method that takes one Sample / FullSample returns nil only after a call
+// that adds it (TrunBox.AddSample / AddFullSample, or another such Fragment method): an early `return nil` for a
+// sample without payload drops the sample with its duration, flags and composition offset.
+func ruleSampleAlwaysAdded(c *Ctx, r *Report) int {
+	n := 0
+	isAdder := func(h *ssa.Function) bool {
+		if h == nil || h.Signature.Recv() == nil {
+			return false
+		}
+		tn := typeName(h.Signature.Recv().Type())
+		return (tn == "TrunBox" || tn == "Fragment") && strings.HasPrefix(h.Name(), "Add") && strings.Contains(h.Name(), "Sample")
+	}
+	for _, f := range libFuncs(c, func(f *ssa.Function) bool { return strings.HasPrefix(SSAFuncName(f), "mp4.Fragment.Add") }) {
+		single := false
+		for _, p := range f.Params[1:] {
+			tn := typeName(p.Type())
+			if _, isSl := p.Type().Underlying().(*types.Slice); !isSl && (tn == "Sample" || tn == "FullSample") {
+				single = true
+			}
+		}
+		if !single {
+			continue
+		}
+		cut := map[*ssa.BasicBlock]bool{}
+		for _, b := range f.Blocks {
+			for _, ins := range b.Instrs {
+				if call, ok := ins.(*ssa.Call); ok && isAdder(call.Call.StaticCallee()) {
+					cut[b] = true
+				}
+			}
+		}
+		if len(cut) == 0 {
+			continue
+		}
+		n++
+		key := SSAFuncName(f) + ":sample-added-before-nil-return"
+		seen := map[*ssa.BasicBlock]bool{}
+		var bad *ssa.BasicBlock
+		var walk func(b *ssa.BasicBlock)
+		walk = func(b *ssa.BasicBlock) {
+			if seen[b] || cut[b] || bad != nil {
+				return
+			}
+			seen[b] = true
+			if ret, ok := b.Instrs[len(b.Instrs)-1].(*ssa.Return); ok && len(ret.Results) >= 1 {
+				last := ret.Results[len(ret.Results)-1]
+				if k, isC := last.(*ssa.Const); isC && k.Value == nil && last.Type().String() == "error" {
+					bad = b
+					return
+				}
+			}
+			for _, s := range b.Succs {
+				walk(s)
+			}
+		}
+		walk(f.Blocks[0])
+		if bad != nil {
+			r.Bad("O-EVERY", key, c.Pos(firstPos(bad)), "a path returns nil without having added the sample to a trun: the sample is dropped with its duration, flags and composition offset")
+		} else {
+			r.OK("O-EVERY", key, c.Pos(f.Pos()), "every nil return is preceded by the call that adds the sample")
+		}
+	}
+	return n
+}
+
+// ---- L-RAWFIELD: a value that was reduced is compared in its reduced form -----------------------------------------
+
+// ruleReducedNotRaw (L-RAWFIELD): where a function reduces a field with a constant modulus (`sliceType := sh.SliceType
+// % 5`: slice_type 5..9 mean the same as 0..4) and compares the reduced value with constants, it does not also compare
+// the raw field with a constant: the raw comparison misses the aliases (a B slice coded as 6). Returns the number of
+// reduced fields.
+func ruleReducedNotRaw(c *Ctx, r *Report, scope func(*ssa.Function) bool) int {
+	n := 0
+	for _, f := range libFuncs(c, scope) {
+		for _, b := range f.Blocks {
+			for _, ins := range b.Instrs {
+				rem, ok := ins.(*ssa.BinOp)
+				if !ok || rem.Op != token.REM {
+					continue
+				}
+				if _, isC := rem.Y.(*ssa.Const); !isC {
+					continue
+				}
+				raw := rem.X
+				for {
+					if cv, ok := raw.(*ssa.Convert); ok {
+						raw = cv.X
+						continue
+					}
+					break
+				}
+				ld, ok := raw.(*ssa.UnOp)
+				if !ok || ld.Op != token.MUL {
+					continue
+				}
+				fa, ok := ld.X.(*ssa.FieldAddr)
+				if !ok {
+					continue
+				}
+				fv := fieldVar(fa.X.Type(), fa.Field)
+				if fv == nil {
+					continue
+				}
+				// is the reduced value compared with constants at all?
+				reducedCompared := false
+				var follow func(v ssa.Value, d int)
+				follow = func(v ssa.Value, d int) {
+					if d > 3 || v.Referrers() == nil {
+						return
+					}
+					for _, ref := range *v.Referrers() {
+						switch x := ref.(type) {
+						case *ssa.BinOp:
+							if x.Op == token.EQL || x.Op == token.NEQ {
+								reducedCompared = true
+							}
+						case *ssa.Convert:
+							follow(x, d+1)
+						case *ssa.ChangeType:
+							follow(x, d+1)
+						}
+					}
+				}
+				follow(rem, 0)
+				if !reducedCompared {
+					continue
+				}
+				n++
+				key := fmt.Sprintf("%s:%s.%s", SSAFuncName(f), typeName(fa.X.Type()), fv.Name())
+				var rawCmp *ssa.BinOp
+				for _, b2 := range f.Blocks {
+					for _, i2 := range b2.Instrs {
+						bo, ok := i2.(*ssa.BinOp)
+						if !ok || (bo.Op != token.EQL && bo.Op != token.NEQ) {
+							continue
+						}
+						for i, o := range []ssa.Value{bo.X, bo.Y} {
+							if _, isC := []ssa.Value{bo.Y, bo.X}[i].(*ssa.Const); !isC {
+								continue
+							}
+							v := o
+							for {
+								if cv, ok := v.(*ssa.Convert); ok {
+									v = cv.X
+									continue
+								}
+								break
+							}
+							if l2, ok := v.(*ssa.UnOp); ok && l2.Op == token.MUL {
+								if fa2, ok := l2.X.(*ssa.FieldAddr); ok && fieldVar(fa2.X.Type(), fa2.Field) == fv && sameAddr(fa2, fa) {
+									rawCmp = bo
+								}
+							}
+						}
+					}
+				}
+				if rawCmp != nil {
+					r.Bad("L-RAWFIELD", key, c.Pos(rawCmp.Pos()), fmt.Sprintf("%s is reduced with a constant modulus and compared in the reduced form elsewhere in this function, but here the raw value is compared with a constant: the aliases above the modulus are missed", fv.Name()))
+				} else {
+					r.OK("L-RAWFIELD", key, c.Pos(rem.Pos()), "the field is compared only in its reduced form")
+				}
+			}
+		}
+	}
+	return n
+}
+
+// ---- O-WRITE: the slice writer stores what it advances over ----------------------------------------------------
+
+// ruleWriterStoresBytes (O-WRITE): a method of bits.FixedSliceWriter that advances the write offset (stores to the
+// field off) also stores into the buffer (an element store into buf, a copy into a slice of it, or a
+// binary.BigEndian.Put* on a slice of it): bytes that are skipped keep whatever the buffer held, and
+// EncodeSW into a reused buffer then differs from Encode (which always starts from a zeroed one). Returns the number of
+// advancing methods.
+func ruleWriterStoresBytes(c *Ctx, r *Report) int {
+	n := 0
+	for _, f := range libFuncs(c, func(f *ssa.Function) bool { return strings.HasPrefix(SSAFuncName(f), "bits.FixedSliceWriter.") }) {
+		if len(f.Params) == 0 {
+			continue
+		}
+		recv := f.Params[0]
+		isBuf := func(v ssa.Value) bool {
+			for i := 0; i < 4; i++ {
+				switch x := v.(type) {
+				case *ssa.Slice:
+					v = x.X
+				case *ssa.IndexAddr:
+					v = x.X
+				case *ssa.UnOp:
+					if fa, ok := x.X.(*ssa.FieldAddr); ok && fa.X == ssa.Value(recv) {
+						if fv := fieldVar(fa.X.Type(), fa.Field); fv != nil && fv.Name() == "buf" {
+							return true
+						}
+					}
+					return false
+				default:
+					return false
+				}
+			}
+			return false
+		}
+		advances, stores := token.NoPos, false
+		for _, b := range f.Blocks {
+			for _, ins := range b.Instrs {
+				switch x := ins.(type) {
+				case *ssa.Store:
+					if fa, ok := x.Addr.(*ssa.FieldAddr); ok && fa.X == ssa.Value(recv) {
+						if fv := fieldVar(fa.X.Type(), fa.Field); fv != nil && fv.Name() == "off" {
+							advances = x.Pos()
+						}
+					}
+					if ia, ok := x.Addr.(*ssa.IndexAddr); ok && isBuf(ia.X) {
+						stores = true
+					}
+				case *ssa.Call:
+					if bi, ok := x.Call.Value.(*ssa.Builtin); ok && bi.Name() == "copy" && isBuf(x.Call.Args[0]) {
+						stores = true
+					}
+					if h := x.Call.StaticCallee(); h != nil && strings.HasPrefix(h.Name(), "Put") {
+						for _, a := range x.Call.Args {
+							if isBuf(a) {
+								stores = true
+							}
+						}
+					}
+				}
+			}
+		}
+		if advances == token.NoPos {
+			continue
+		}
+		n++
+		key := SSAFuncName(f) + ":stores-what-it-advances-over"
+		if stores {
+			r.OK("O-WRITE", key, c.Pos(advances), "the method stores into the buffer where it advances the offset")
+		} else {
+			r.Bad("O-WRITE", key, c.Pos(advances), "the method advances the write offset without storing into the buffer: the bytes skipped keep what the buffer held before (a reused buffer), and EncodeSW differs from Encode")
 		}
 	}
 	return n
